@@ -61,11 +61,12 @@ CLAIMED["C09"] = dict(
          "with info(T' at p) = combine mode (info(F at p)) (info(R at p)) at every path (C09_existing_kept/_new_added/_replaced/"
          "_nothing_else); C09_root_md(+_fresh) — root metadata per entry name; C09_other_roots — other trees and header untouched. "
          "Targeted appends through the real dispatch and path matching, by a zipper lemma (updateAt_encode): C09_target_new_branch, "
-         "C09_target_new_single, C09_target_below, C09_foreign_branch, C09_foreign_single — exactly the selection is added exactly "
+         "C09_target_new_single, C09_target_below, C09_target_yes_append, C09_target_no_append, C09_target_over_branch (append-over "
+         "of an inner node = appendOne at its parent), C09_foreign_branch, C09_foreign_single — exactly the selection is added exactly "
          "there — with C09_target_frame (every path not through the target keeps its content). Sequences: C09_closed (every "
          "theorem applies again after any append) and C09_twice.",
     note="Not proved, modelled branch for branch and compared only: the remaining leaves of the 30-way dispatch (append-over on an "
-         "inner target with tree=True/False, emdpath combined with a root already in the file, a foreign Root's children). "
+         "inner target with tree=False, emdpath combined with a root already in the file, a foreign Root's children). "
          "compatKids is the explicit 'common name space' domain: no runtime child named like an object of the body it lands in, "
          "scratch name _tmp_<name> free, old children not named like objects of the replacing body. Bodies opaque.",
     technique="Lean 4 refinement proof to a path-wise union spec (whole-root and targeted appends, zipper lemma) + differential correspondence over (file tree, runtime tree) pairs",
